@@ -78,7 +78,7 @@ def _run_generated(args):
             pre = g.prelude(R.w) if rng.random() < 0.7 else []
         while i < nsteps + len(pre) and not R.findings and not R.diverged:
             st = pre.pop(0) if pre else g.next_step(R.w)
-            if st is None:
+            if st is None or st["kind"] == "stop":
                 break
             if not valid_now(R.w, st):
                 continue
